@@ -227,7 +227,7 @@ Qed.
 
 Definition site_fine (S : tsdoc) (D : opdoc) (vars : option vardefs) (x : site) : Prop :=
   (forall r, site_ok true S D r x = true)
-  /\ Forall (use_strict vars) (site_var_uses false S x)
+  /\ Forall (use_ok vars) (site_var_uses false S x)
   /\ site_syntax_ok x = true
   /\ (forall n, x <> StCycle n).
 
@@ -402,6 +402,7 @@ Section WalkComplete.
       { pose proof (Hok R_args_defined) as A1. pose proof (Hok R_required_args) as A2. pose proof (Hok R_literal_types) as A3.
         cbn [site_ok arg_sites] in A1, A2, A3. rewrite Esp in A1, A2, A3. cbn [forallb] in A1, A2, A3.
         rewrite andb_true_r in A1, A2, A3. cbn [site_var_uses] in Hu. rewrite Esp in Hu.
+        destruct (wf_field_args_both S root fields tf Hwf Hroot Edf Htf) as [Hnd' Hty'].
         apply (check_arguments_complete S vars Hwf (closed_input S Hcl)); auto.
         cbn [site_syntax_ok] in Hsyn. apply args_written_ne, Hsyn. }
       rewrite Hargs, Etft. cbn [app].
@@ -539,9 +540,15 @@ Section DocComplete.
   Hypothesis Hwf : schema_wf S = true.
   Hypothesis Hcl : schema_closed S = true.
   Hypothesis Hfine : doc_fine_vis S D = true.
-  (** the subscription rule is outside the theorems (C03 and C04 alike): the implementation's own count is assumed *)
+  (** the subscription rule: the implementation's own collection of response keys is assumed to find at most one
+      (the specification-side rule gives exactly one key for CollectFields with a visited set; that the implementation's
+      path-based collection finds no other key is not proved) *)
   Hypothesis Hsub : forall o, In o (doc_ops D) -> op_type o = Subscription ->
-    count_fields (doc_fuel D) (doc_frags D) [] (op_sel o) <= 1.
+    length (collect_response_keys (doc_fuel D) (doc_frags D) [] (op_sel o) []) <= 1.
+  (** every fragment definition is (transitively) spread by an operation (Fragments Must Be Used, 5.5.1.4, which valid
+      documents satisfy), in the implementation's own terms: the pass over never-spread fragments is then empty *)
+  Hypothesis Hspread : forallb (fun f => mem_str (iname (fr_name f))
+                                  (spread_by_operations (doc_fuel D) (doc_frags D) (od_defs D))) (doc_frags D) = true.
 
   Lemma rules_vis r : rule_ok_vis S D r = true.
   Proof.
@@ -550,12 +557,11 @@ Section DocComplete.
   Qed.
 
   Lemma op_fine o : In o (doc_ops D) ->
-    var_usage_strict_on S o (vis_op_sites S D o) = true
-    /\ forallb site_syntax_ok (vis_op_sites S D o ++ op_const_sites o) = true
+    forallb site_syntax_ok (vis_op_sites S D o ++ op_const_sites o) = true
     /\ exists t, sp_root S (op_type o) = Some t /\ is_object t = true.
   Proof.
     intros Hin. unfold doc_fine_vis, doc_guard in Hfine. apply andb_true_iff in Hfine as [_ H]. rewrite forallb_forall in H.
-    specialize (H o Hin). rewrite !andb_true_iff in H. destruct H as [[H1 H2] H3]. split; [exact H1|]. split; [exact H2|].
+    specialize (H o Hin). rewrite !andb_true_iff in H. destruct H as [H2 H3]. split; [exact H2|].
     destruct (sp_root S (op_type o)) as [t|]; [eauto | discriminate].
   Qed.
 
@@ -589,14 +595,16 @@ Section DocComplete.
 
   Lemma vis_site_fine o x : In o (doc_ops D) -> In x (vis_op_sites S D o) -> site_fine S D (op_vars o) x.
   Proof.
-    intros Ho Hx. destruct (op_fine o Ho) as [Hstrict [Hsyn _]].
+    intros Ho Hx. destruct (op_fine o Ho) as [Hsyn _].
+    pose proof (rules_vis R_var_usage_compatible) as Hstrict. unfold rule_ok_vis in Hstrict. cbn [rule_ok_vis_on] in Hstrict.
+    rewrite forallb_forall in Hstrict. specialize (Hstrict _ (vis_in o Ho)). cbn [fst snd] in Hstrict.
     split; [|split; [|split]].
     - intros r. apply (site_rules_hold o x r Ho). apply in_or_app. left. exact Hx.
     - pose proof (rules_vis R_vars_defined) as Hd. unfold rule_ok_vis in Hd. cbn [rule_ok_vis_on] in Hd.
       rewrite forallb_forall in Hd. specialize (Hd _ (vis_in o Ho)). cbn [fst snd] in Hd.
       unfold vars_defined_on in Hd. apply andb_true_iff in Hd as [Hd _].
       rewrite forallb_forall in Hd. specialize (Hd x Hx).
-      unfold var_usage_strict_on in Hstrict. rewrite forallb_forall in Hstrict. specialize (Hstrict x Hx).
+      unfold var_usage_on in Hstrict. rewrite forallb_forall in Hstrict. specialize (Hstrict x Hx).
       apply Forall_forall. intros u Hu.
       rewrite forallb_forall in Hd, Hstrict. specialize (Hd u Hu). specialize (Hstrict u Hu).
       rewrite find_var_eq' in Hd, Hstrict.
@@ -610,7 +618,7 @@ Section DocComplete.
 
   Lemma const_site_fine o x : In o (doc_ops D) -> In x (op_const_sites o) -> site_fine S D None x.
   Proof.
-    intros Ho Hx. destruct (op_fine o Ho) as [_ [Hsyn _]].
+    intros Ho Hx. destruct (op_fine o Ho) as [Hsyn _].
     split; [|split; [|split]].
     - intros r. apply (site_rules_hold o x r Ho). apply in_or_app. right. exact Hx.
     - pose proof (rules_vis R_vars_defined) as Hd. unfold rule_ok_vis in Hd. cbn [rule_ok_vis_on] in Hd.
@@ -626,14 +634,14 @@ Section DocComplete.
 
   Lemma check_operation_complete o : In o (doc_ops D) -> check_operation (doc_fuel D) S (doc_frags D) o = [].
   Proof.
-    intros Ho. destruct (op_fine o Ho) as [_ [_ [root [Hroot Hobj]]]].
+    intros Ho. destruct (op_fine o Ho) as [_ [root [Hroot Hobj]]].
     destruct (wf_parts S Hwf) as [Hone Hpos].
     unfold check_operation. unfold root_types. rewrite (root_types_from_one S Hone).
     pose proof Hroot as Hroot0. unfold sp_root in Hroot.
     assert (Hmain : forall rootname, get_type S rootname = Some root ->
       check_directives S (op_vars o) (op_location (op_type o)) (op_dirs o)
       ++ match op_vars o with Some vs => check_variables_definition S vs | None => [] end
-      ++ (if optype_eqb (op_type o) Subscription && Nat.ltb 1 (count_fields (doc_fuel D) (doc_frags D) [] (op_sel o))
+      ++ (if optype_eqb (op_type o) Subscription && Nat.ltb 1 (length (collect_response_keys (doc_fuel D) (doc_frags D) [] (op_sel o) []))
           then [err0 SubscriptionMustHaveExactlyOneRootField (op_pos o)] else [])
       ++ check_selection_set (doc_fuel D) S (doc_frags D) (op_vars o) [] root (op_sel o) = []).
     { intros rootname Hg.
@@ -650,7 +658,7 @@ Section DocComplete.
         intros v Hv. split; [|rewrite forallb_forall in T; apply T, Hv].
         apply (dirs_fine S D None Hwf Hcl). apply (const_site_fine o _ Ho).
         unfold op_const_sites, op_vardefs. rewrite Ev. apply in_map_iff. exists v. auto. }
-      assert (H3 : optype_eqb (op_type o) Subscription && Nat.ltb 1 (count_fields (doc_fuel D) (doc_frags D) [] (op_sel o)) = false).
+      assert (H3 : optype_eqb (op_type o) Subscription && Nat.ltb 1 (length (collect_response_keys (doc_fuel D) (doc_frags D) [] (op_sel o) [])) = false).
       { destruct (optype_eqb (op_type o) Subscription) eqn:E; [|reflexivity]. cbn [andb].
         apply Nat.ltb_ge. apply (Hsub o Ho). apply optype_eqb_eq, E. }
       assert (H4 : check_selection_set (doc_fuel D) S (doc_frags D) (op_vars o) [] root (op_sel o) = []).
@@ -723,6 +731,20 @@ Section DocComplete.
     apply IH. rewrite <- app_assoc. exact E.
   Qed.
 
+  Lemma check_unspread_nil : forall defs spread,
+    (forall f, In (DFrag f) defs -> mem_str (iname (fr_name f)) spread = true) ->
+    check_unspread (doc_fuel D) S (doc_frags D) spread defs = [].
+  Proof.
+    induction defs as [|d defs IH]; intros spread H; [reflexivity|]. cbn [check_unspread].
+    destruct d as [o|f|i]; try (apply IH; intros f' Hf'; apply H; right; exact Hf').
+    rewrite (H f (or_introl eq_refl)). apply IH. intros f' Hf'. apply H. right. exact Hf'.
+  Qed.
+
   Theorem complete_vis : check_operation_document S D = [].
-  Proof. unfold check_operation_document, check_operation_document_fuel. apply check_definitions_complete. reflexivity. Qed.
+  Proof.
+    unfold check_operation_document, check_operation_document_fuel.
+    rewrite (check_definitions_complete (od_defs D) [] eq_refl). cbn [app].
+    apply check_unspread_nil. intros f Hf. rewrite forallb_forall in Hspread. apply Hspread.
+    unfold doc_frags. apply in_flat_map. exists (DFrag f). split; [exact Hf | left; reflexivity].
+  Qed.
 End DocComplete.
